@@ -228,6 +228,13 @@ impl<Data> IoLoopInner for LoopInner<'_, Data> {
         if let Ok(slot) = self.sources.borrow_mut().get_mut(token.inner) {
             slot.source = None;
         }
+        // The fd may outlive the adapter (`into_inner()`): remove it from the poller now, otherwise it
+        // stays registered under a dead token and cannot be adapted or inserted again.
+        let fd = dispatcher.borrow().fd;
+        let _ = self
+            .poll
+            .borrow_mut()
+            .unregister(unsafe { BorrowedFd::borrow_raw(fd) });
     }
 }
 
